@@ -1706,7 +1706,14 @@ class QuicConnection:
             )
 
         stream = self._crypto_streams[context.epoch]
-        pending = offset + length - stream.receiver.starting_offset()
+        # what we hold for the peer: data awaiting reassembly, and the beginning
+        # of a handshake message the TLS layer cannot process yet
+        pending = (
+            offset
+            + length
+            - stream.receiver.starting_offset()
+            + len(self.tls._receive_buffer)
+        )
         if pending > MAX_PENDING_CRYPTO:
             raise QuicConnectionError(
                 error_code=QuicErrorCode.CRYPTO_BUFFER_EXCEEDED,
